@@ -600,6 +600,28 @@ pub fn gen_colour(rng: &mut Rng) -> String {
     }
 }
 
+/// A quoted CSS string built from escapes, ASCII and multi-byte pieces.
+pub fn gen_css_string(rng: &mut Rng) -> String {
+    const PIECES: &[&str] = &[
+        "a", "b c", "[", "]", "*", "\\41", "\\41 ", "\\2022 ", "\\0000a0", "\\d800", "\\110000 ", "\\0 ", "\\ffffff",
+        "\\\n", "\\\"", "\\'", "宽", "→", "«", "é", "😀", "\\", "\\g", "\\ ", "\\bb", "\\2192", "\\4d", "\n", "\t", "/*", "*/", ";", "}",
+    ];
+    let q = if rng.chance(1, 2) { '"' } else { '\'' };
+    let mut s = String::new();
+    s.push(q);
+    for _ in 0..rng.urange(0, 5) {
+        let p = rng.pick(PIECES);
+        if p.contains(q) {
+            continue;
+        }
+        s.push_str(p);
+    }
+    if !rng.chance(1, 10) {
+        s.push(q);
+    }
+    s
+}
+
 pub fn gen_decls(rng: &mut Rng, out: &mut String, max: usize, sloppy: bool) {
     let n = rng.urange(0, max);
     for i in 0..n {
@@ -615,9 +637,21 @@ pub fn gen_decls(rng: &mut Rng, out: &mut String, max: usize, sloppy: bool) {
             8 => format!("max-height: {}", rng.pick(&["0", "0px", "100px", "auto"])),
             9 => format!("overflow: {}", rng.pick(&["hidden", "visible", "scroll", "hidden auto"])),
             10 => format!("overflow-y: {}", rng.pick(&["hidden", "auto"])),
-            11 => format!("content: {}", rng.pick(&["\"[\"", "']'", "\"a\\\"b\"", "\"宽\"", "\"\"", "none", "\"x\ny\"", "\"\\41 \"", "attr(x)"])),
+            11 => {
+                if rng.chance(1, 2) {
+                    format!("content: {}", gen_css_string(rng))
+                } else {
+                    format!("content: {}", rng.pick(&["\"[\"", "']'", "\"a\\\"b\"", "\"宽\"", "\"\"", "none", "\"x\ny\"", "\"\\41 \"", "attr(x)"]))
+                }
+            }
             12 => "margin: 0 auto".into(),
-            13 => "font: 12px/1.5 \"A B\", serif".into(),
+            13 => {
+                if rng.chance(1, 2) {
+                    format!("font-family: {}, serif", gen_css_string(rng))
+                } else {
+                    "font: 12px/1.5 \"A B\", serif".into()
+                }
+            }
             14 => format!("COLOR: {} !important", gen_colour(rng)),
             _ => "x-unknown: foo(bar [baz] {q})".into(),
         };
@@ -683,8 +717,13 @@ pub fn gen_compound(rng: &mut Rng, out: &mut String) {
             out.push_str(rng.pick(CLASSES));
         }
         _ => {
-            out.push_str(rng.pick(&["p", "em", "strong", "code", "dt", "a", "li"]));
-            out.push_str(rng.pick(&["::before", "::after", ":hover", ":first-child"]));
+            // pseudo-elements on any kind of element, table parts included
+            // (their content is inserted into the first/last cell)
+            out.push_str(rng.pick(&[
+                "p", "em", "strong", "code", "dt", "a", "li", "table", "tbody", "thead", "tr", "td", "th", "ul", "ol", "div",
+                "span", "h1", "pre", "blockquote", "dl", "dd", "img", "br", "sup", "body", "*", ".c0", "#i1",
+            ]));
+            out.push_str(rng.pick(&["::before", "::after", "::before", "::after", ":hover", ":first-child"]));
         }
     }
 }
@@ -699,8 +738,120 @@ pub fn gen_selector(rng: &mut Rng, out: &mut String, max_steps: usize) {
     }
 }
 
+/// A compound selector from the grammar the library supports.
+pub fn gen_valid_compound(rng: &mut Rng, out: &mut String) {
+    const TAGS: &[&str] = &[
+        "p", "div", "span", "td", "th", "tr", "li", "em", "a", "table", "tbody", "thead", "ul", "ol", "h1", "h2", "pre",
+        "blockquote", "dl", "dt", "dd", "strong", "code", "s", "sup", "img", "body", "x", "font", "b", "center",
+    ];
+    match rng.below(10) {
+        0..=2 => out.push_str(rng.pick(TAGS)),
+        3 | 4 => {
+            out.push('.');
+            out.push_str(rng.pick(CLASSES));
+        }
+        5 => {
+            out.push('#');
+            out.push_str(rng.pick(IDS));
+        }
+        6 => out.push('*'),
+        7 => {
+            out.push_str(rng.pick(TAGS));
+            out.push('.');
+            out.push_str(rng.pick(CLASSES));
+        }
+        8 => {
+            if rng.chance(1, 2) {
+                out.push_str(rng.pick(TAGS));
+            }
+            let arg = match rng.below(7) {
+                0 => "odd".to_string(),
+                1 => "even".to_string(),
+                2 => format!("{}", rng.range(0, 6)),
+                3 => format!("{}n+{}", rng.range(0, 5), rng.range(0, 5)),
+                4 => format!("-{}n+{}", rng.range(0, 3), rng.range(0, 6)),
+                5 => format!("{}n-{}", rng.range(0, 5), rng.range(0, 5)),
+                _ => "n".to_string(),
+            };
+            out.push_str(&format!(":nth-child({})", arg));
+        }
+        _ => {
+            out.push('.');
+            out.push_str(rng.pick(CLASSES));
+            out.push('.');
+            out.push_str(rng.pick(CLASSES));
+        }
+    }
+}
+
+/// A rule the library's CSS parser accepts and applies: supported selector
+/// grammar only, optional pseudo-element at the very end, every declaration
+/// terminated by ';' (a rule whose last declaration lacks it is dropped).
+pub fn gen_valid_rule(rng: &mut Rng, out: &mut String) {
+    let sels = rng.urange(1, 2);
+    let mut pseudo = false;
+    for i in 0..sels {
+        if i > 0 {
+            out.push_str(", ");
+        }
+        let steps = rng.urange(1, 4);
+        for k in 0..steps {
+            if k > 0 {
+                out.push_str(rng.pick(&[" ", " ", " > "]));
+            }
+            gen_valid_compound(rng, out);
+        }
+        if sels == 1 && rng.chance(1, 4) {
+            out.push_str(rng.pick(&["::before", "::after"]));
+            pseudo = true;
+        }
+    }
+    out.push_str(" { ");
+    if pseudo {
+        out.push_str(&format!("content: {}; ", {
+            let mut c = gen_css_string(rng);
+            // keep it a terminated string
+            let q = c.chars().next().unwrap();
+            if !c.ends_with(q) || c.len() < 2 {
+                c.push(q);
+            }
+            c
+        }));
+    }
+    let n = rng.urange(if pseudo { 0 } else { 1 }, 3);
+    for _ in 0..n {
+        let d = match rng.below(12) {
+            0..=2 => format!("color: {}", rng.pick(&["red", "#fff", "#123456", "rgb(1, 2, 3)", "blue"])),
+            3 => format!("background-color: {}", rng.pick(&["#000", "#abcdef", "red"])),
+            4 | 5 => "display: none".to_string(),
+            6 => format!("white-space: {}", rng.pick(&["pre", "pre-wrap", "normal"])),
+            7 => "height: 0; overflow: hidden".to_string(),
+            8 => "max-height: 0px; overflow-y: hidden".to_string(),
+            9 => format!("color: {} !important", rng.pick(&["red", "#0f0"])),
+            10 => "display: inline".to_string(),
+            _ => "margin: 0 auto".to_string(),
+        };
+        out.push_str(&d);
+        out.push_str("; ");
+    }
+    out.push_str("}\n");
+}
+
 pub fn gen_sheet(rng: &mut Rng, out: &mut String, max_rules: usize, sloppy: bool) {
     let n = rng.urange(0, max_rules);
+    // Most rules come from the supported grammar, so that they are actually
+    // applied (one rule the parser rejects silently ends the whole sheet).
+    if !sloppy || rng.chance(1, 2) {
+        for _ in 0..n.max(1) {
+            gen_valid_rule(rng, out);
+            if sloppy && rng.chance(1, 6) {
+                break;
+            }
+        }
+        if !sloppy {
+            return;
+        }
+    }
     for _ in 0..n {
         let k = rng.below(20);
         if k == 0 {
@@ -726,6 +877,11 @@ pub fn gen_sheet(rng: &mut Rng, out: &mut String, max_rules: usize, sloppy: bool
                 gen_selector(rng, out, 4);
             }
             out.push_str(rng.pick(&["{", " {", " {\n", "{ "]));
+            if out.ends_with("::before{") || out.ends_with("::after{") || out.contains("::before {") || out.contains("::after {") {
+                if rng.chance(3, 4) {
+                    out.push_str(&format!("content: {};", gen_css_string(rng)));
+                }
+            }
             gen_decls(rng, out, 4, sloppy);
             out.push_str(rng.pick(&["}", "}\n", " } "]));
         }
